@@ -108,15 +108,15 @@ func DictionaryCompoundFilterConstructor(config map[string]interface{}, cache *r
 	maxSubWordSize := defaultMaxSubWordSize
 	onlyLongestMatch := defaultOnlyLongestMatch
 
-	minVal, ok := config["min_word_size"].(float64)
+	minVal, ok := configNumber(config["min_word_size"])
 	if ok {
 		minWordSize = int(minVal)
 	}
-	minSubVal, ok := config["min_subword_size"].(float64)
+	minSubVal, ok := configNumber(config["min_subword_size"])
 	if ok {
 		minSubWordSize = int(minSubVal)
 	}
-	maxSubVal, ok := config["max_subword_size"].(float64)
+	maxSubVal, ok := configNumber(config["max_subword_size"])
 	if ok {
 		maxSubWordSize = int(maxSubVal)
 	}
@@ -141,4 +141,18 @@ func init() {
 	if err != nil {
 		panic(err)
 	}
+}
+
+// configNumber reads a numeric option that arrives as float64 from JSON (a
+// reopened index) or as an int from a mapping built through the Go API.
+func configNumber(v interface{}) (float64, bool) {
+	switch n := v.(type) {
+	case float64:
+		return n, true
+	case int:
+		return float64(n), true
+	case int64:
+		return float64(n), true
+	}
+	return 0, false
 }
